@@ -1,7 +1,7 @@
 SPEC = {
     "claimed": True,
-    "gen": [],
-    "theorems": ['C03_inert6', 'C03_garbage6', 'C03_inert7', 'C03_inert7_connless', 'C03_exception7', 'C03_tokens_not_reserved6', 'C03_tokens_not_reserved7', 'C03_nonvacuous'],
+    "gen": ["consts", "bitfields", "huffman"],
+    "theorems": ['C03_inert6', 'C03_inert6_bytes', 'C03_garbage6', 'C03_inert7', 'C03_inert7_connless', 'C03_exception7', 'C03_tokens_not_reserved6', 'C03_tokens_not_reserved7', 'C03_nonvacuous'],
     "allowed_axioms": [],
     "extract": {
         "LibTw2.Model.Conn6": ["step", "needs_tick", "conn6_new"],
